@@ -21,12 +21,16 @@ RULE = ("all shapes with <= 8 cells + seeded random shapes (orders 1-5, singleto
         "shorter / longer / mixed shapes (1-4 modes); aggregator inputs with arbitrary multiplicities, unsorted, zero-summing "
         "groups, 9 reducers, inferred and explicit shapes, malformed (out of range, count mismatch); random sparse generators "
         "with counts 0..size and beyond, dyadic densities up to 1, seeds 0.., draws captured from numpy.random.uniform; "
-        "teneye for (order,size) in {2}x{1..4}, {4}x{1..3}, {6}x{2}; non-trivial = more than one cell and not constant")
+        "teneye for (order,size) in {2}x{1..4}, {4}x{1..3}, {6}x{2}; malformed stream: negative / zero / empty / fractional "
+        "shapes for tenones, tenzeros, tenrand, tendiag, sptendiag, orders <= 0 / odd and negative sizes for teneye, "
+        "densities outside (0,1], 2-d element arrays; aggregator inputs with pairwise distinct subscripts and zero values; "
+        "non-trivial = more than one cell and not constant")
 CORRESPONDENCE_ONLY = [
-    "tenrand: range [0,1) checked on the drawn samples only (a property of numpy's generator); layout proved via C20_from_function",
-    "teneye: entry formula and identity action ttsv(I,x)=||x||^(m-2) x checked on pyttb's output for small (order,size); "
-    "general theorem stated as C20_teneye_identity_stmt, proved for order 2 only",
-    "request normalisation of sptensor.from_function / sptenrand (ceil/floor of size*density) compared on exact dyadic requests",
+    "tenrand / sptenrand: that numpy's uniform draws lie in [0,1) is checked on the drawn samples only (a property of numpy's "
+    "generator); that the tensor's values ARE the draws is proved (C20_from_function_values, C20_sprand_values)",
+    "request normalisation of sptensor.from_function / sptenrand: the double products prod(shape)*nonzeros and "
+    "prod(shape)*density are computed by numpy and enter the model as inputs (C20_request_float_product: exact product => "
+    "exact-rational model)",
 ]
 ASSUMPTIONS = [
     "random draws are inputs of the model: the theorems speak about the post-processing of an arbitrary matrix of draws; "
@@ -128,6 +132,17 @@ def gen_cases(rng, tier):
         given = rng.random() < 0.7
         cases.append(Case("aggregator", {"shape": list(shp) if given else None, "N": len(shp), "subs": subs, "vals": vals,
                                          "reducer": red}, cnt > 1))
+    # pairwise DISTINCT subscripts (nothing is merged) with zero values in the data: the zero must still be dropped
+    for k in range(120 if big else 40):
+        shp = tgen.rand_shape(rng, maxn=4, maxcells=48, maxdim=4)
+        allsubs = tgen.all_subs(shp)
+        cnt = rng.randint(1, min(len(allsubs), 6))
+        subs = [list(x) for x in rng.sample(allsubs, cnt)]
+        vals = [rng.choice([-3, -2, 1, 2, 4]) for _ in range(cnt)]
+        for z in rng.sample(range(cnt), rng.randint(1, max(1, cnt // 2))):
+            vals[z] = 0
+        cases.append(Case("aggregator", {"shape": list(shp) if k % 3 else None, "N": len(shp), "subs": subs, "vals": vals,
+                                         "reducer": names[k % len(names)]}, cnt > 1))
     for red in names:       # the docstring example and an unsorted one, every reducer
         cases.append(Case("aggregator", {"shape": [4, 4], "N": 2, "subs": [[1, 2], [1, 3], [1, 3]], "vals": [6, 7, 8], "reducer": red}, True))
         cases.append(Case("aggregator", {"shape": [2, 3], "N": 2, "subs": [[1, 2], [0, 1], [1, 2], [0, 0], [1, 2], [0, 1]],
@@ -158,9 +173,25 @@ def gen_cases(rng, tier):
         for r in sorted({0, 1, 2, total - 1, total, max(0, total // 2)}):
             cases.append(Case("sptenrand", {"shape": list(shp), "mode": "nonzeros", "p": r, "q": 1, "seed": seed}, total > 1))
             seed += 1
-    # the witnesses of the recorded findings, always present
-    cases.append(Case("aggregator", {"shape": [4], "N": 1, "subs": [[0]], "vals": [3], "reducer": "max"}, False))
+    # non-dyadic densities / requests: the double products are inexact and enter the model as inputs
+    for shp in rshapes[: (len(rshapes) if big else 8)]:
+        for d in (0.1, 0.3, 1.0 / 3.0, 0.7, 0.29, 0.07, 0.999):
+            fr = Fraction(d)
+            cases.append(Case("sptenrand", {"shape": list(shp), "mode": "density", "p": fr.numerator, "q": fr.denominator, "seed": seed},
+                              math.prod(shp) > 1))
+            seed += 1
+            cases.append(Case("sp_from_function", {"shape": list(shp), "p": fr.numerator, "q": fr.denominator, "fn": "counter", "seed": seed},
+                              math.prod(shp) > 1))
+            seed += 1
+        for r in (Fraction(-1, 2), Fraction(0), Fraction(3, 2), Fraction(2)):     # densities outside (0, 1]
+            cases.append(Case("sptenrand", {"shape": list(shp), "mode": "density", "p": r.numerator, "q": r.denominator, "seed": seed}, True))
+            seed += 1
+    # inputs of the repaired findings (C20-N4 single pair, C20-N1 density*size < 1, C20-N2 zero count) and of the open ones
+    for red in names:
+        cases.append(Case("aggregator", {"shape": [4], "N": 1, "subs": [[0]], "vals": [3], "reducer": red}, False))
+        cases.append(Case("aggregator", {"shape": [2, 2], "N": 2, "subs": [[1, 0]], "vals": [0], "reducer": red}, False))
     cases.append(Case("sptendiag", {"e": [5], "shape": None}, False))
+    cases.append(Case("sptendiag", {"e": [0], "shape": [2, 2]}, False))
     cases.append(Case("sptenrand", {"shape": [10, 10], "mode": "density", "p": 1, "q": 256, "seed": 0}, True))
     cases.append(Case("sp_from_function", {"shape": [2, 3], "p": 0, "q": 1, "fn": "ones", "seed": 0}, True))
     cases.append(Case("sp_from_function", {"shape": [2, 3], "p": 5, "q": 1, "fn": "ones", "seed": 0}, True))
@@ -171,6 +202,28 @@ def gen_cases(rng, tier):
         cases.append(Case("teneye", {"m": m, "n": n, "x": [[v.numerator, v.denominator] for v in x]}, n > 1))
     for m in (1, 3, 5):
         cases.append(Case("teneye", {"m": m, "n": 2, "x": [[1, 1], [1, 2]]}, True))
+    # ---- malformed stream: ill-formed requests
+    zshapes = [[-1, 2], [2, -3], [-2, -2], [0, 2], [2, 0], [0], [-1], [], [3, 0, -1], [1, 2, 3], [2, 2], [4]]
+    zshapes += [[rng.choice([-2, -1, 0, 1, 2, 3]) for _ in range(rng.randint(1, 4))] for _ in range(40 if big else 12)]
+    for zs in zshapes:
+        for op in ("tenones_z", "tenzeros_z", "tenrand_z"):
+            cases.append(Case(op, {"shape": zs}, True))
+    for m in range(-4, 7):
+        for n in (-2, -1, 0, 1, 2):
+            if m <= 4 or n <= 2:
+                cases.append(Case("teneye_guard", {"m": m, "n": n}, True))
+    for N in (0, 1, 2, 3):
+        for zs in zshapes:
+            if zs and math.prod(max(N, d) for d in zs) <= 300:
+                e = [rng.choice([-3, -1, 2, 4, 0]) for _ in range(N)]
+                if N >= 1:
+                    cases.append(Case("tendiag_z", {"e": e, "shape": zs}, N > 1))
+                cases.append(Case("sptendiag_z", {"e": e, "shape": zs}, N > 1))
+    for op in ("tendiag_2d", "sptendiag_2d"):
+        cases.append(Case(op, {"e": [[1, 2], [3, 4]], "shape": [2, 2]}, True))
+        cases.append(Case(op, {"e": [[1, 2, 3]], "shape": [3, 3]}, True))      # one non-trivial dimension: a vector
+    for kw in ("none", "both"):
+        cases.append(Case("sptenrand_kw", {"shape": [2, 2], "kw": kw}, True))
     return cases
 
 
@@ -312,6 +365,29 @@ def run_impl(c):
             draws = [[[_numer(float(u)) for u in row] for row in np.atleast_2d(d)] for d in calls_d]
             return {"res": res, "draws": draws, "vcalls": vcalls, "uses_uniform": uses_uniform,
                     "repro": res == res2 and all(np.array_equal(x, y) for x, y in zip(calls, calls2)) and len(calls) == len(calls2)}
+        if c.op in ("tenones_z", "tenzeros_z"):
+            fn = ttb.tenones if c.op == "tenones_z" else ttb.tenzeros
+            return {"ok": tgen.obs_dense(np, fn(tuple(a["shape"])))}
+        if c.op == "tenrand_z":
+            np.random.seed(1)
+            T = ttb.tenrand(tuple(a["shape"]))
+            return {"shape": [int(d) for d in T.shape], "data_shape": [int(d) for d in T.data.shape]}
+        if c.op == "teneye_guard":
+            T = ttb.teneye(a["m"], a["n"])
+            return {"shape": [int(d) for d in T.shape], "n": int(T.data.size)}
+        if c.op in ("tendiag_z", "sptendiag_z"):
+            e = np.array(a["e"], dtype=float)
+            if c.op == "tendiag_z":
+                return {"ok": tgen.obs_dense(np, ttb.tendiag(e, tuple(a["shape"])))}
+            return {"ok": _sp_obs(np, ttb.sptendiag(e, tuple(a["shape"])))}
+        if c.op in ("tendiag_2d", "sptendiag_2d"):
+            e = np.array(a["e"], dtype=float)
+            if c.op == "tendiag_2d":
+                return {"ok": tgen.obs_dense(np, ttb.tendiag(e, tuple(a["shape"])))}
+            return {"ok": _sp_obs(np, ttb.sptendiag(e, tuple(a["shape"])))}
+        if c.op == "sptenrand_kw":
+            S = ttb.sptenrand(tuple(a["shape"])) if a["kw"] == "none" else ttb.sptenrand(tuple(a["shape"]), 0.5, 2)
+            return {"ok": _sp_obs(np, S)}
         if c.op == "teneye":
             T = ttb.teneye(a["m"], a["n"])
             return {"shape": [int(d) for d in T.shape], "data": [Fraction(float(x)) for x in np.ravel(T.data, order="F")]}
@@ -341,6 +417,7 @@ def _sp_ok(o):
 
 
 REJECT = ("AssertionError", "ValueError")
+REJECT_Z = REJECT + ("TypeError",)      # ill-formed shapes: np.prod(()) is a float -> numpy raises TypeError
 
 
 def coq_check(c, o):
@@ -396,22 +473,22 @@ def coq_check(c, o):
     if c.op in ("sp_from_function", "sptenrand"):
         total = math.prod(a["shape"])
         req = Fraction(a["p"], a["q"])
-        # exactness of the float products the code forms (else the exact-rational model is not comparable: skip)
-        if Fraction(float(total) * float(req)) != total * req:
-            return None
+        if Fraction(float(req)) != req:
+            return None                      # the request itself is not a double (never generated)
+        # the double product the code forms is an INPUT of the faithful model (exact as a rational)
+        fl = Fraction(float(total) * float(req))
+        rn, rd = fl.numerator, fl.denominator
         res = o["res"]
         if c.op == "sptenrand" and a["mode"] == "density":
-            cnt_impl = f"(sptenrand_count_impl {total} {gz(a['p'])} {a['q']}%positive)"
-            cnt_spec = f"(Some (sptenrand_count_spec {total} {gz(a['p'])} {a['q']}%positive))"
-            if Fraction(float(total) * float(total * req)) != total * total * req:
-                return None
+            cnt_impl = f"(sptenrand_count_fl {total} {gz(a['p'])} {a['q']}%positive {gz(rn)} {rd}%positive)"
+            cnt_spec = f"(sptenrand_request_spec {total} {gz(a['p'])} {a['q']}%positive)"
         else:
-            cnt_impl = f"(norm_request {total} {gz(a['p'])} {a['q']}%positive)"
+            cnt_impl = f"(norm_request_fl {total} {gz(a['p'])} {a['q']}%positive {gz(rn)} {rd}%positive)"
             cnt_spec = f"(norm_request_spec {total} {gz(a['p'])} {a['q']}%positive)"
         if not o["repro"]:
             return "false"
         if "exc" in res:
-            ob = "SRej" if res["exc"] in REJECT else "SCrash"
+            ob = "SRej" if res["exc"] in REJECT else "SCrash"       # SCrash (IndexError, ...) is accepted nowhere
             vals = []
         else:
             if res["nnz"] != len(res["subs"]):
@@ -432,6 +509,52 @@ def coq_check(c, o):
             ob = f"(SOk {tgen.gsparse(res['shape'], res['subs'], obs_vals)})"
         return (f"sprand_call_ok {cnt_impl} {cnt_spec} {gnlist(a['shape'])} {gdraws(o['draws'])} {gzlist(vals)} "
                 f"{len(o['draws'])} {ob}")
+    if c.op in ("tenones_z", "tenzeros_z"):
+        fn = "ztenones_chk" if c.op == "tenones_z" else "ztenzeros_chk"
+        if "exc" in o:
+            return f"opt_eqb dense_eqb ({fn} {gzlist(a['shape'])}) None" if o["exc"] in REJECT else "false"
+        if not tgen.all_int(o["ok"]["data"]):
+            return "false"
+        return f"opt_eqb dense_eqb ({fn} {gzlist(a['shape'])}) (Some {tgen.gdense(o['ok']['shape'], o['ok']['data'])})"
+    if c.op == "tenrand_z":
+        if "exc" in o:
+            return f"negb (dense_gen_guard {gzlist(a['shape'])})" if o["exc"] in REJECT_Z else "false"
+        if any(d < 0 for d in o["shape"] + o["data_shape"]):
+            return "false"                   # a negative size was accepted
+        return (f"dense_gen_guard {gzlist(a['shape'])} && nvec_eqb (to_shape {gzlist(a['shape'])}) {gnlist(o['shape'])} && "
+                f"nvec_eqb {gnlist(o['shape'])} {gnlist(o['data_shape'])}")
+    if c.op == "teneye_guard":
+        if "exc" in o:
+            return f"negb (teneye_guard {gz(a['m'])} {gz(a['n'])})" if o["exc"] in REJECT else "false"
+        return (f"teneye_guard {gz(a['m'])} {gz(a['n'])} && nvec_eqb (repeat (Z.to_nat {gz(a['n'])}) (Z.to_nat {gz(a['m'])})) "
+                f"{gnlist(o['shape'])} && Nat.eqb (size {gnlist(o['shape'])}) {o['n']}")
+    if c.op == "tendiag_z":
+        if "exc" in o or not tgen.all_int(o["ok"]["data"]):
+            return "false"
+        return (f"dense_eqb (ztendiag_z {gzlist(a['e'])} (Some {gzlist(a['shape'])})) {tgen.gdense(o['ok']['shape'], o['ok']['data'])} && "
+                f"nvec_eqb (pyttb_diag_shape {len(a['e'])} {gzlist(a['shape'])}) {gnlist(o['ok']['shape'])}")
+    if c.op == "sptendiag_z":
+        model = f"(zsptendiag_chk {gzlist(a['e'])} {gzlist(a['shape'])})"
+        if "exc" in o:
+            return f"opt_sp_agrees None {model}" if o["exc"] in REJECT else "false"
+        if not _sp_ok(o["ok"]):
+            return "false"
+        return (f"opt_sp_agrees (Some {gsp(o['ok'])}) {model} && "
+                f"nvec_eqb (pyttb_diag_shape {len(a['e'])} {gzlist(a['shape'])}) {gnlist(o['ok']['shape'])}")
+    if c.op in ("tendiag_2d", "sptendiag_2d"):
+        # parse_one_d: an array with more than one non-trivial dimension is rejected; a 1 x n array is a vector
+        rows = a["e"]
+        vector = len(rows) == 1 or all(len(r) == 1 for r in rows)
+        flat = [v for r in rows for v in r]
+        if not vector:
+            return "true" if o.get("exc") in REJECT else "false"
+        if "exc" in o:
+            return "false"
+        if c.op == "tendiag_2d":
+            return f"dense_eqb (ztendiag {gzlist(flat)} {gshape_opt(a['shape'])}) {tgen.gdense(o['ok']['shape'], o['ok']['data'])}"
+        return f"sp_agrees {gsp(o['ok'])} (zsptendiag {gzlist(flat)} {gshape_opt(a['shape'])})"
+    if c.op == "sptenrand_kw":
+        return "true" if o.get("exc") == "ValueError" else "false"
     if c.op == "teneye":
         if a["m"] % 2 == 1:
             return "true" if o.get("exc") == "ValueError" else "false"
@@ -556,7 +679,7 @@ def oracle(c, o):
         req = Fraction(a["p"], a["q"])
         res = o["res"]
         if c.op == "sptenrand" and a["mode"] == "density":
-            want = math.floor(total * req)
+            want = math.floor(total * req) if 0 < req <= 1 else None
         elif req < 0 or req > total:
             want = None
         elif req < 1:
@@ -574,6 +697,49 @@ def oracle(c, o):
             return f"nnz {res['nnz']} != requested {want}"
         if not o["repro"]:
             return "not reproducible under the same seed"
+    elif c.op in ("tenones_z", "tenzeros_z", "tenrand_z"):
+        bad = (not a["shape"]) or any(d < 0 for d in a["shape"])
+        if "exc" in o:
+            return None if bad else f"admissible shape {a['shape']} raised {o['exc']}"
+        if bad:
+            return f"ill-formed shape {a['shape']} accepted"
+        got = o["ok"]["shape"] if "ok" in o else o["shape"]
+        if got != a["shape"]:
+            return f"shape {got} != requested {a['shape']}"
+        if "ok" in o and o["ok"]["data"] != [1 if c.op == "tenones_z" else 0] * math.prod(a["shape"]):
+            return "wrong entries"
+    elif c.op == "teneye_guard":
+        bad = a["m"] <= 0 or a["m"] % 2 == 1 or a["n"] < 0
+        if "exc" in o:
+            return None if bad else f"teneye({a['m']},{a['n']}) raised {o['exc']}"
+        if bad:
+            return f"ill-formed request teneye({a['m']},{a['n']}) accepted"
+        if o["shape"] != [a["n"]] * a["m"]:
+            return f"shape {o['shape']}"
+    elif c.op in ("tendiag_z", "sptendiag_z"):
+        N = len(a["e"])
+        if "exc" in o:
+            # a sparse tensor cannot have a size below one: only reachable without elements
+            return None if (c.op == "sptendiag_z" and N == 0 and any(d <= 0 for d in a["shape"])) else f"raised {o['exc']}"
+        shape = [max(N, d) for d in a["shape"]]
+        ob = o["ok"]
+        if ob["shape"] != shape:
+            return f"shape {ob['shape']} != rule {shape}"
+        if c.op == "sptendiag_z":
+            w = _wf_sparse(ob, shape)
+            if w:
+                return w
+            got = {tuple(s_): v for s_, v in zip(ob["subs"], ob["vals"])}
+            want = {tuple([k] * len(shape)): a["e"][k] for k in range(N) if a["e"][k] != 0}
+            if got != want:
+                return f"stored entries {got} != diagonal {want}"
+        else:
+            for s_, v in zip(tgen.all_subs(shape), ob["data"]):
+                want = a["e"][s_[0]] if len(set(s_)) == 1 and s_[0] < N else 0
+                if v != want:
+                    return f"entry {s_} = {v}, expected {want}"
+    elif c.op in ("tendiag_2d", "sptendiag_2d", "sptenrand_kw"):
+        return None
     elif c.op == "teneye":
         if a["m"] % 2 == 1:
             return None if o.get("exc") == "ValueError" else "odd order accepted"
@@ -595,7 +761,7 @@ def oracle(c, o):
     return None
 
 
-# ---------------------------------------------------------------- known findings
+# ---------------------------------------------------------------- known findings (open: A-46, C20-N3)
 def _total(c):
     return math.prod(c.args["shape"])
 
@@ -605,13 +771,15 @@ def _req(c):
 
 
 def _norm_count(c):
-    """count after the code's normalisation(s), or None if rejected"""
+    """count after the (repaired) code's normalisation, or None if rejected"""
     total, r = _total(c), _req(c)
     if c.op == "sptenrand" and c.args["mode"] == "density":
-        r = total * r
+        if not 0 < r <= 1:
+            return None
+        r = Fraction(math.floor(float(total) * float(r)))
     if r < 0 or r >= total:
         return None
-    return math.ceil(total * r) if r < 1 else math.floor(r)
+    return math.ceil(float(total) * float(r)) if r < 1 else math.floor(r)
 
 
 def _first_draw_repeats(c):
@@ -625,23 +793,20 @@ def _first_draw_repeats(c):
     return len({tuple(r) for r in subs.tolist()}) < nz
 
 
+# The trigger regions of the two OPEN findings (named in findings.d/C20.jsonl). The either-or "faithful model OR what the
+# property asks" is evaluated INSIDE the Coq check and only inside these regions (C20Harness.a46_region / n3_region, computed
+# from the captured draws / the two request readings); everywhere else pyttb must agree with the faithful model of the
+# repaired code. The Python predicates below restate the regions for the evidence; no mismatch is attributed through them.
 INPUT_CLASSES = {
-    # the first draw under this seed contains a repeated row (only then can the redraw loop end short of the request)
     "first_draw_has_repeated_row": lambda c: c.op in ("sp_from_function", "sptenrand") and _first_draw_repeats(c),
-    "density_times_size_below_one": lambda c: c.op == "sptenrand" and c.args["mode"] == "density" and 0 < _total(c) * _req(c) < 1,
-    "single_pair": lambda c: (c.op == "aggregator" and len(c.args["subs"]) == 1 and len(c.args["vals"]) == 1)
-    or (c.op == "sptendiag" and len(c.args["e"]) == 1),
-    "zero_count": lambda c: c.op in ("sp_from_function", "sptenrand") and _norm_count(c) == 0,
     "request_equals_size": lambda c: c.op in ("sp_from_function", "sptenrand")
-    and (_total(c) * _req(c) if (c.op == "sptenrand" and c.args["mode"] == "density") else _req(c)) == _total(c),
+    and ((_req(c) == 1) if (c.op == "sptenrand" and c.args["mode"] == "density") else _req(c) == _total(c)),
 }
-
-
-# Only C20-N4 needs attribution: there the model is the CORRECT behaviour and pyttb disagrees on exactly this class.
-# For A-46 / C20-N1 / C20-N2 / C20-N3 the Coq check itself is "faithful model OR what the property asks"
-# (sprand_call_ok), so a defective-as-known or a repaired pyttb both pass and any THIRD behaviour is reported;
-# their input classes (named in findings.d/C20.jsonl) are kept in INPUT_CLASSES for documentation and the evidence.
-TRIGGERS = {"single_pair": INPUT_CLASSES["single_pair"]}
+# C20-N5: a zero-size request reaches ttb.tensor with 1-d data; the reshape is skipped for empty data
+INPUT_CLASSES["zero_size_tenrand"] = lambda c: c.op == "tenrand_z" and 0 in c.args["shape"]
+# C20-N5 is attributed through its trigger (the model is the CORRECT behaviour: data has the requested shape, a negative size
+# is rejected); A-46 / C20-N3 are handled inside the Coq check (see above).
+TRIGGERS = {"zero_size_tenrand": INPUT_CLASSES["zero_size_tenrand"]}
 
 
 def _w_a46():
@@ -650,26 +815,6 @@ def _w_a46():
     np.random.seed(0)
     S = ttb.sptensor.from_function(np.ones, (2, 3), 5)
     return None if S.nnz == 5 else f"from_function(np.ones,(2,3),5) under seed 0 returned nnz={S.nnz}"
-
-
-def _w_density():
-    import numpy as np
-    import pyttb as ttb
-    np.random.seed(0)
-    S = ttb.sptenrand((10, 10), density=0.005)
-    return None if S.nnz <= 1 else f"sptenrand((10,10),density=0.005) returned nnz={S.nnz} (density {S.nnz / 100})"
-
-
-def _w_zero():
-    import numpy as np
-    import pyttb as ttb
-    try:
-        S = ttb.sptensor.from_function(np.ones, (2, 3), 0)
-    except (AssertionError, ValueError):
-        return None
-    except Exception as ex:
-        return f"from_function(np.ones,(2,3),0) raised {type(ex).__name__}"
-    return None if S.nnz == 0 and S.shape == (2, 3) else "zero request returned a non-empty tensor"
 
 
 def _w_full():
@@ -681,14 +826,16 @@ def _w_full():
     return None if S.nnz == 4 else f"density 1.0 returned nnz={S.nnz}"
 
 
-def _w_single():
-    import numpy as np
+def _w_zero_size():
     import pyttb as ttb
     try:
-        S = ttb.sptensor.from_aggregator(np.array([[0]]), np.array([[3.0]]), (4,), "max")
-    except Exception as ex:
-        return f"from_aggregator([[0]],[[3.]],(4,),'max') raised {type(ex).__name__}: {str(ex)[:80]}"
-    return None if str(S.vals.dtype) == "float64" and S.vals.tolist() == [[3.0]] else f"single pair gives vals dtype {S.vals.dtype}"
+        T = ttb.tenrand((3, 0, -1))
+    except (ValueError, AssertionError):
+        T = None
+    if T is not None:
+        return f"tenrand((3,0,-1)) returned a tensor of shape {T.shape} with data.shape {T.data.shape}"
+    T = ttb.tenrand((0, 2))
+    return None if T.data.shape == (0, 2) else f"tenrand((0,2)) has shape {T.shape} but data.shape {T.data.shape}"
 
 
-WITNESSES = {"C20-N4": _w_single, "A-46": _w_a46, "C20-N1": _w_density, "C20-N2": _w_zero, "C20-N3": _w_full}
+WITNESSES = {"A-46": _w_a46, "C20-N3": _w_full, "C20-N5": _w_zero_size}
